@@ -457,6 +457,12 @@ dgsitrf(superlu_options_t *options, SuperMatrix *A, int relax, int panel_size,
                           dense, amax, panel_lsub, segrep, repfnz,
                           marker, parent, xplore, Glu);
 
+	    /* A column that is entirely zero gets the same nonzero scale
+	       as in the relaxed-supernode branch above, otherwise its
+	       pivot would be replaced by zero. */
+	    for (jj = jcol; jj < jcol + panel_size; jj++)
+		if (amax[jj - jcol] == 0.0) amax[jj - jcol] = fill_ini;
+
 	    /* numeric sup-panel updates in topological order */
 	    dpanel_bmod(m, panel_size, jcol, nseg1, dense,
 			tempv, segrep, repfnz, Glu, stat);
